@@ -290,6 +290,39 @@ Fixpoint cupd (r : crow) (p : path) (f : crow -> option crow) : option crow :=
 Definition on_slot {S} (j : nat) (f : S -> S) (r : list S) : option (list S) :=
   match nth_error r j with Some s => Some (upd r j (f s)) | None => None end.
 
+(* ---- raw values (the argument of Value.FromRaw / Map.FromRaw / Slice.FromRaw) ------------------------
+   nil | scalar (string, ints, floats, bool: tag 1..4 as pcommon.ValueType) | []byte | map[string]any | []any.
+   A raw map is given as the list of its entries IN THE ORDER in which Map.FromRaw stored them (Go map
+   iteration order is a run-time choice: the harness reads the order back and passes it in, like a capacity). *)
+Inductive raw :=
+| RNil
+| RScalar (tag : nat) (z : Z)
+| RBytes (zs : list Z)
+| RMap (kvs : list (Z * raw))
+| RSlice (l : list raw).
+
+Definition mk_cs (rows : list crow) : cslot :=          (* make([]T, n) filled, or nil when there is nothing *)
+  match rows with [] => CS None | _ => CS (Some (0, rows, [])) end.
+Definition mk_vs (rows : list vrow) : vslot := VS rows.
+
+(* Value.FromRaw(iv): a new wrapper per composite value, every element converted recursively, bytes copied *)
+Fixpoint craw (r : raw) : cslot :=
+  match r with
+  | RNil => CI 0 0
+  | RScalar t z => CI t z
+  | RBytes zs => CR (Some (0, 7, [cprim_copy (map (fun z => [CP z]) zs) (CS None)]))
+  | RMap kvs => CR (Some (0, 5, [mk_cs (map (fun kv => [CP (fst kv); craw (snd kv)]) kvs)]))
+  | RSlice l => CR (Some (0, 6, [mk_cs (map (fun v => [craw v]) l)]))
+  end.
+Fixpoint vraw (r : raw) : vslot :=
+  match r with
+  | RNil => VI 0 0
+  | RScalar t z => VI t z
+  | RBytes zs => VR (Some (7, [VS (map (fun z => [VP z]) zs)]))
+  | RMap kvs => VR (Some (5, [VS (map (fun kv => [VP (fst kv); vraw (snd kv)]) kvs)]))
+  | RSlice l => VR (Some (6, [VS (map (fun v => [vraw v]) l)]))
+  end.
+
 (* ---- operations ---------------------------------------------------------------------------------- *)
 Inductive lop :=
 | LSetP (j : nat) (z : Z)                        (* SetX(v) of a primitive field; SetAt on a primitive slice element *)
@@ -304,7 +337,10 @@ Inductive lop :=
 | LPut (j : nat) (k : Z) (tag : nat) (z : Z) (newcap : nat)   (* Map.PutStr/Int/Double/Bool/Empty/EmptyBytes/EmptyMap/EmptySlice *)
 | LMapRemove (j : nat) (k : Z)
 | LFromRawP (j : nat) (zs : list Z)              (* primitive slice FromRaw *)
-| LFromRawB (j : nat) (zs : list Z).             (* Value.FromRaw([]byte): SetEmptyBytes().FromRaw(raw) — new wrapper, the bytes are copied *)
+| LFromRawB (j : nat) (zs : list Z)
+| LFromRawV (j : nat) (r : raw)                  (* Value.FromRaw(nested raw value) *)
+| LFromRawM (j : nat) (kvs : list (Z * raw))     (* Map.FromRaw(map[string]any), entries in stored order *)
+| LFromRawS (j : nat) (l : list raw).            (* Slice.FromRaw([]any) *)             (* Value.FromRaw([]byte): SetEmptyBytes().FromRaw(raw) — new wrapper, the bytes are copied *)
 
 Inductive op :=
 | ONew (n : nat)
@@ -338,6 +374,9 @@ Definition clocal (sc : schema) (o : lop) (r : crow) : option crow :=
   | LMapRemove j k => on_slot j (on_cs (fun s => cmap_remove s k)) r
   | LFromRawP j zs => on_slot j (on_cs (fun s => cprim_copy (prim_rows zs) s)) r
   | LFromRawB j zs => on_slot j (fun _ => CR (Some (0, 7, [cprim_copy (prim_rows zs) (CS None)]))) r
+  | LFromRawV j rv => on_slot j (fun _ => craw rv) r
+  | LFromRawM j kvs => on_slot j (on_cs (fun _ => mk_cs (map (fun kv => [CP (fst kv); craw (snd kv)]) kvs))) r
+  | LFromRawS j l => on_slot j (on_cs (fun _ => mk_cs (map (fun v => [craw v]) l))) r
   end.
 
 (* the slot with which a move leaves its source: nil slice, nil pointer, empty AnyValue, zero scalar *)
@@ -484,6 +523,9 @@ Definition vlocal (sc : schema) (o : lop) (r : vrow) : option vrow :=
   | LMapRemove j k => on_slot j (on_vs (fun s => vmap_remove s k)) r
   | LFromRawP j zs => on_slot j (on_vs (fun _ => VS (vprim_rows zs))) r
   | LFromRawB j zs => on_slot j (fun _ => VR (Some (7, [VS (vprim_rows zs)]))) r
+  | LFromRawV j rv => on_slot j (fun _ => vraw rv) r
+  | LFromRawM j kvs => on_slot j (on_vs (fun _ => VS (map (fun kv => [VP (fst kv); vraw (snd kv)]) kvs))) r
+  | LFromRawS j l => on_slot j (on_vs (fun _ => VS (map (fun v => [vraw v]) l))) r
   end.
 
 Record ahandle := mkA { a_ro : bool; a_ty : nat; a_row : vrow }.
